@@ -93,3 +93,45 @@ Definition tree_dropout (p : Q) (t : tree) (lp : path) (sw : switches) (r x : li
   | Some f => Some (dropout p f r x)
   | None => None
   end.
+
+(* ---- one Dropout object called several times ---------------------------------------------------------------
+   Every training-mode forward builds a NEW mask tensor (`Tensor(random_data.astype(x.dtype))`) that becomes an
+   operand of that call's graph node; a later forward of the same layer object must not disturb it.  A session:
+   mode switches on any node of the tree, forwards through the root (call number = position among the forwards),
+   and backward of an earlier call's output with an upstream gradient, in any order.
+   [dnodes]: per forward call, the mask tensor recorded in its graph (None: eval mode, the output IS the input). *)
+Inductive dev :=
+| DSwitch (p : path) (b : bool)
+| DFwd (r x : list Q)
+| DBwd (k : nat) (g : list Q).          (* out_k.backward(g): what lands in x_k.grad *)
+
+Record dstate := { dtree : tree; dnodes : list (option (list Q)) }.
+
+Inductive dobs := DNone | DOut (y : list Q) | DGrad (gx : list Q) | DErr.
+
+Definition dstep (p : Q) (lp : path) (s : dstate) (e : dev) : dstate * dobs :=
+  match e with
+  | DSwitch q b => ({| dtree := set_at q b (dtree s); dnodes := dnodes s |}, DNone)
+  | DFwd r x =>
+      match flag_at (dtree s) lp with
+      | Some true => ({| dtree := dtree s; dnodes := dnodes s ++ [Some (mask_tensor p r)] |},
+                      DOut (map2 Qmult x (mask_tensor p r)))
+      | Some false => ({| dtree := dtree s; dnodes := dnodes s ++ [None] |}, DOut x)
+      | None => (s, DErr)
+      end
+  | DBwd k g =>
+      match nth_error (dnodes s) k with
+      | Some (Some m) => (s, DGrad (map2 Qmult g m))
+      | Some None => (s, DGrad g)
+      | None => (s, DErr)
+      end
+  end.
+
+Fixpoint drun (p : Q) (lp : path) (s : dstate) (h : list dev) : dstate :=
+  match h with [] => s | e :: t => drun p lp (fst (dstep p lp s e)) t end.
+
+Fixpoint dtrace (p : Q) (lp : path) (s : dstate) (h : list dev) : list dobs :=
+  match h with
+  | [] => []
+  | e :: t => let q := dstep p lp s e in snd q :: dtrace p lp (fst q) t
+  end.
